@@ -367,7 +367,7 @@ def run_impl(impl, cases, tz):
             rec['impl'] = h
             rec['event_id'] = event_id_of(J.unhx(h))
         res.append({'ms_read_back': int(t[0]), 'tid': int(t[1]), 'qtver': t[2], 'recs': recs,
-                    'impl': recs[-1]['impl'], 'event_id': recs[-1]['event_id']})
+                    'impl': recs[-1]['impl'] if recs else '-', 'event_id': recs[-1]['event_id'] if recs else None})
     return res, None
 
 
@@ -399,7 +399,7 @@ def run_cases(impl, model, cases, tz):
             mm = out_m[k].split(' '); k += 1
             rec['model'] = mm[0]
             rec['verdict'] = mm[1] if len(mm) > 1 else '?'
-        r['model'] = r['recs'][-1]['model']; r['verdict'] = r['recs'][-1]['verdict']
+        r['model'] = r['recs'][-1]['model'] if r['recs'] else '-'; r['verdict'] = r['recs'][-1]['verdict'] if r['recs'] else '-'
     return res, None
 
 
@@ -718,6 +718,8 @@ def run():
             rr = rr[1:] if rr else None
         else:
             small = shrink_case(cases[i], lambda t: kind_of(t, tz) == kind)
+            if tz != 'UTC0|C|' and kind_of(small, 'UTC0|C|') == kind:
+                tz = 'UTC0|C|'   # the environment of the sub-run (time zone, locale, locale codec) is not part of the trigger
             rr, _ = run_cases(impl, model, [small], tz)
         k2 = judge(small, rr[0], {}) if rr else None
         d = describe(small, rr[0] if rr else None, tz)
